@@ -334,7 +334,11 @@ class StatelessDistributionFamilyFromTorchDistribution(StatelessDistributionFami
             A weighted tensor containing the NLL values (with negative log-probabilities in `.value`)
             and the same weights as the input `x`.
         """
-        return WeightedTensor(-cls.dist_factory(*params).log_prob(x.value), x.weight)
+        # masked entries are filled with 0 so that whatever is stored there never reaches
+        # the (support-validated) torch density
+        return WeightedTensor(
+            -cls.dist_factory(*params).log_prob(x.filled(0)), x.weight
+        )
 
     @classmethod
     def _nll_and_jacobian(
